@@ -383,9 +383,11 @@ def _c06(prop, tier, seed, jobs, limit):
                     'a beartyping block the path hook is present iff something remains registered.',
         funcs=['beartype.claw._package.clawpkgmain', 'beartype.claw._package.clawpkgtrie',
                'beartype.claw._package.clawpkgcontext', 'beartype.claw._package._clawpkgmake',
-               'beartype.claw._clawstate', 'beartype.claw._importlib.clawimpmain'],
+               'beartype.claw._clawstate', 'beartype.claw._importlib.clawimpmain',
+               'beartype._data.shame.module.datashamemodclaw', 'beartype.claw._importlib._clawimpfileloader:BeartypeSourceFileLoader.get_code'],
         extra_assumptions=['names are valid dotted identifiers (make_package_names_from_args replaced by a pass-through; syntax validation is outside the claim)',
                            'a symbolic label may equal the built-in excluded package name \'beartype\' (re-keyed as a label constant; the model answers None for every name below it); the other built-in excluded names and the loader-side BLACKLIST_CLAW_PACKAGE_NAMES_REGEX are outside the claim',
+                           'loader side: BLACKLIST_CLAW_PACKAGE_NAMES_REGEX and the method get_code() applies it with are read from /repo, translated from re._parser\'s tree into a z3 regular expression and decided as regular-language inclusions over dotted identifiers of any length (R1 whole first label, R2 descendants, R3 beartype itself, R4 finite list); names with newlines are outside',
                            'skip lists are exercised by calling _blacklist_packages directly (the glue line in hook_packages is not)',
                            'configurations are 3 concrete, pairwise different BeartypeConf objects; equality patterns among them are enumerated by index',
                            'bounds: <= 2 operations (quick) / <= 3 (thorough) + beartyping blocks, names of <= 2 / <= 3 labels, query of <= 3 labels'],
